@@ -27,7 +27,8 @@ NoFlag == UNCHANGED bad
 InIds(c) == c \in ConnIds
 
 \* variables of Transport.tla the trace does not drive
-Rest == UNCHANGED <<broken, last, clock, tnow, cst, caddr, ncalls, nkills>>
+RestNB == UNCHANGED <<last, clock, tnow, cst, caddr, ncalls, nkills>>
+Rest == RestNB /\ UNCHANGED broken
 KeepBusy == UNCHANGED <<busy, cconn>>
 
 TrInit == Init /\ l = 1 /\ bad = {}
@@ -85,10 +86,13 @@ TrGet ==
                      \cup (IF E.b = 1 /\ Len(conns[a]) >= MaxConns THEN {<<l, "appendfull">>} ELSE {})
     /\ UNCHANGED <<idle, addrOf, alive, open, used, up, closed, failsSince>> /\ Rest /\ KeepBusy /\ Adv
 
+\* a caller saw ErrShutdown (or what the library takes for it) and marks the connection dead, then closes it: the connection
+\* must really have ended - cut by the environment, closed by housekeeping or by Close - not be a healthy one
 TrDead ==
     /\ IsEv("t.dead") /\ InIds(E.s)
     /\ alive' = [alive EXCEPT ![E.s] = FALSE]
-    /\ UNCHANGED <<conns, cursor, idle, addrOf, open, used, up, closed, failsSince>> /\ Rest /\ KeepBusy /\ Adv /\ NoFlag
+    /\ bad' = bad \cup (IF open[E.s] /\ ~broken[E.s] /\ ~closed THEN {<<l, "deadhealthy">>} ELSE {})
+    /\ UNCHANGED <<conns, cursor, idle, addrOf, open, used, up, closed, failsSince>> /\ Rest /\ KeepBusy /\ Adv
 
 TrConnClose ==
     /\ IsEv("c.close") /\ InIds(E.s)
@@ -163,7 +167,7 @@ TrIdleSpare ==
          /\ idle[a] # <<>> /\ Head(idle[a]) = E.s
          /\ idle' = [idle EXCEPT ![a] = Append(Tail(@), E.s)]
     /\ UNCHANGED <<conns, cursor, addrOf, alive, open, used, up, closed, failsSince>> /\ Rest /\ KeepBusy /\ Adv /\ NoFlag
-TrApiRet ==      \* E.a: 0 ok, 1 ErrShutdown, 2 ErrDial, 3 other;  E.b = 1: answered by the server of the requested address
+TrApiRet ==      \* E.a: 0 ok, 1 ErrShutdown, 2 ErrDial, 3 other, 4 the caller's own context ended (CallWithContext);  E.b = 1: answered by the server of the requested address
     /\ IsEv("api.ret")
     /\ LET k == E.c IN
        /\ failsSince' = IF k \in Callers THEN [failsSince EXCEPT ![k] = IF E.a = 1 THEN @ + 1 ELSE IF E.a = 0 THEN 0 ELSE @] ELSE failsSince
@@ -179,14 +183,18 @@ TrApiRet ==      \* E.a: 0 ok, 1 ErrShutdown, 2 ErrDial, 3 other;  E.b = 1: answ
 TrKill ==
     /\ IsEv("env.kill")
     /\ up' = [up EXCEPT ![AddrN(E.a)] = FALSE]
-    /\ UNCHANGED <<conns, cursor, idle, addrOf, alive, open, used, closed, failsSince>> /\ Rest /\ KeepBusy /\ Adv /\ NoFlag
+    /\ broken' = [c \in ConnIds |-> broken[c] \/ (addrOf[c] = AddrN(E.a) /\ open[c])]
+    /\ UNCHANGED <<conns, cursor, idle, addrOf, alive, open, used, closed, failsSince>> /\ RestNB /\ KeepBusy /\ Adv /\ NoFlag
 TrRestart ==
     /\ IsEv("env.restart")
     /\ up' = [up EXCEPT ![AddrN(E.a)] = TRUE]
     /\ failsSince' = [k \in Callers |-> 0]
     /\ UNCHANGED <<conns, cursor, idle, addrOf, alive, open, used, closed>> /\ Rest /\ KeepBusy /\ Adv /\ NoFlag
 
-TrDrop == IsEv("env.drop") /\ UNCHANGED vars /\ Adv /\ NoFlag      \* one connection cut by the environment; its effects are logged (t.dead, c.close)
+TrDrop ==     \* one connection cut by the environment; its effects are logged (t.dead, c.close)
+    /\ IsEv("env.drop") /\ InIds(E.s)
+    /\ broken' = [broken EXCEPT ![E.s] = TRUE]
+    /\ UNCHANGED <<conns, cursor, idle, addrOf, alive, open, used, up, closed, failsSince>> /\ RestNB /\ KeepBusy /\ Adv /\ NoFlag
 TrObsClosing == IsEv("obs.closing") /\ UNCHANGED vars /\ Adv /\ NoFlag
 TrObsDupExec ==   \* a request was executed E.a > 1 times: something re-issued the call
     /\ IsEv("obs.dupexec")
@@ -216,5 +224,6 @@ NoBusyClosed == BadWhat("busyclosed")                                  \* C15
 AppendWithinLimit == BadWhat("appendfull")                             \* C13
 CloseClosedAll == BadWhat("notclosed") /\ BadWhat("socketsleft")      \* C15 / C20
 NoOtherError == BadWhat("othererror")
+NoHealthyMarkedDead == BadWhat("deadhealthy")                          \* C19 / C14: only a connection that ended is given up
 NoDupExec == BadWhat("dupexec")                                        \* C04
 ================================================================================
